@@ -56,6 +56,10 @@ def enc_uint(ex, s, width, v, node):
     res = []
     if isinstance(v, VOpt) or v is VNone:
         for s1, v1 in ex.unopt(s, v, node):
+            if isinstance(v1, Raised) and width != 1:
+                # UInt32 / UInt64 are `value.to_bytes(n, 'big')`: None has no such attribute (Byte is
+                # bytes((value,)): TypeError, as unopt says)
+                v1 = Raised(VExc('AttributeError'))
             res.extend([(s1, v1)] if isinstance(v1, Raised) else enc_uint(ex, s1, width, v1, node))
         return res
     iz = ex.as_int(v)
@@ -1264,7 +1268,8 @@ def b_set(ex, s, args, kw, node):
     """set(iterable of bytes/str/int): a NEW mutable set object (heap cell).  Sets built at run time are symbolic:
     a VMap whose domain is the membership predicate (values unused), flagged is_set."""
     if not args:
-        raise Unsupported('set() without elements: element type unknown')
+        # set(): the empty set as a value (element type fixed by the first .add, see cs_add)
+        return [(s, VSet(()))]
     it = ex.deref(s, args[0])
     if isinstance(it, VSeq):
         # set(<symbolic list>): the set of its elements, set_of(seq) (recursive spec function: uninterpreted here,
@@ -1357,6 +1362,25 @@ def ss_remove(strict):
     return f
 
 
+def cs_add(ex, s, recv, r, args, kw, node):
+    """<empty set value>.add(x) with a symbolic x: becomes the symbolic singleton {x} (in place)"""
+    x = ex.deref(s, args[0])
+    if r.items:
+        raise Unsupported('add to a non-empty concrete set')
+    if isinstance(x, VOpaque):
+        et = 'opaque:' + x.sortname
+    else:
+        et = _elem_kind(x)
+    if et is None:
+        raise Unsupported(f'set.add({x!r})')
+    xz = to_z3(x, et)
+    s.heap['__setkeys__'] = tuple(s.heap.get('__setkeys__', ())) + (xz,)
+    empty = z3.K(sort_of(et), z3.BoolVal(False))
+    _store_recv(ex, s, node, VSymSet(z3.Store(empty, xz, z3.BoolVal(True)), et))
+    return [(s, VNone)]
+
+
+SET_METHODS['add'] = cs_add
 SYMSET_METHODS = {'add': ss_add, 'remove': ss_remove(True), 'discard': ss_remove(False)}
 FREE.update({'set': b_set, 'super': b_super})
 DICT_METHODS.update({'update': se_update, 'add': se_update})
